@@ -22,8 +22,9 @@ def corr(seed, tier, props_focus=None):
     res = CorrResult('xfer-trace')
     rng = rng_for(seed, 'xfer-trace')
     cases = []
-    n = 250 if tier == 'quick' else 6000
-    focuses = [comp_explore.focus_for('C05'), comp_explore.focus_for('C07'), comp_explore.focus_for('C04'), None]
+    n = 400 if tier == 'quick' else 8000
+    focuses = [comp_explore.focus_for('C05'), comp_explore.focus_for('C07'), comp_explore.focus_for('C04'), None,
+               comp_explore.focus_for('C08'), comp_explore.focus_for('C08')]
     for i in range(n):
         sc = explore.gen_scenario(rng, focuses[i % len(focuses)])
         if sc.get('cancel') and sc['cancel']['kind'] == 'interrupt-result':
